@@ -144,7 +144,17 @@ impl<'a> Ser<'a> {
         }
         // namespace prefix choice per distinct namespace, decided at the root-most element
         let mut prefixes: Vec<(&'static str, String)> = Vec::new();
+        // the prolog and the epilogue of a document may hold comments (and white space) too
+        if self.site(Rw::Comment, "document>before-root") {
+            out.push_str("<!-- before the root element -->");
+        }
         self.elem(root, "", &mut prefixes, &mut out);
+        if self.site(Rw::Comment, "document>after-root") {
+            out.push_str("<!-- after the root element -->");
+        }
+        if self.site(Rw::WsBetween, "document>after-root") {
+            out.push('\n');
+        }
         out
     }
 
